@@ -183,6 +183,10 @@ func stdSeqRepeat(_ context.Context, arg rel.Value) (rel.Value, error) {
 	return rel.NewNativeFunction("repeat(n)", func(_ context.Context, arg rel.Value) (rel.Value, error) {
 		switch seq := arg.(type) {
 		case rel.String:
+			if n < 0 {
+				// like the array form: repeating a negative number of times yields the empty sequence
+				return rel.None, nil
+			}
 			return rel.NewString([]rune(strings.Repeat(seq.String(), n))), nil
 		case rel.Array:
 			values := []rel.Value{}
